@@ -9,7 +9,7 @@ import "gonum.org/v1/gonum/dsp/fourier/internal/fftpack"
 // FFT implements Fast Fourier Transform and its inverse for real sequences.
 type FFT struct {
 	work []float64
-	ifac [15]int
+	ifac [64]int
 
 	// real temporarily store complex data as
 	// pairs of real values to allow passing to
@@ -126,7 +126,7 @@ func (t *FFT) Freq(i int) float64 {
 // CmplxFFT implements Fast Fourier Transform and its inverse for complex sequences.
 type CmplxFFT struct {
 	work []float64
-	ifac [15]int
+	ifac [64]int
 
 	// real temporarily store complex data as
 	// pairs of real values to allow passing to
